@@ -319,6 +319,9 @@ func runC11(w *mon.W) {
 			s = s + oracle.MustRevComp(s)
 			w.Add("constructed_palindromes", 1)
 		}
+		if i%7 == 5 {
+			s = caseEdges(r, s)
+		}
 		expand := oracle.ExpansionSize(s, 4096) <= 4096 || (bigExpand && oracle.ExpansionSize(s, 70000) <= 70000)
 		w.Begin(id, s)
 		c11Judge(w, id, s, n <= 60, expand, hasU)
